@@ -91,3 +91,16 @@ prop("C06",
           "incompatible values rejected. Non-trivial = an MPD with >= 2 periods of which >= 2 non-empty; distinct by hash of the case.",
      quick=dict(shards=2, timeout=400), thorough=dict(shards=16, timeout=1500),
      assumptions=COMMON + ["start_ = 0 (the statement gives period starts in wall-clock terms); tsbd >= 2 segment durations"])
+
+prop("C18",
+     rule="rapid draws a byte stream (optional init: bundled video/audio init or synthetic ftyp+moov; the bundled 3_chunked.m4s; 0-5 synthetic "
+          "chunks of optional styp/prft/emsg/sidx/free + moof + mdat whose payloads contain the byte strings 'moov'/'mdat'; optional trailing "
+          "bytes, truncation point, corrupted size field 0..7 / +-delta / 2^16..2^24), a read partition (1 byte at a time, small, mixed, all at "
+          "once; last data with or without io.EOF), an initial buffer 0..64 KiB, and optionally a read error position or a failing callback. "
+          "Oracle: a model parser written from the statement walks the boxes of the whole slice: concatenation = input, one callback per "
+          "complete mdat, trailing bytes at EOF, init flag = top-level moov header seen, Start = chunk offset; injected errors returned; "
+          "termination within 20 s; bounded buffer growth for well-formed streams. Non-trivial = stream with >= 2 callbacks read with a read "
+          "boundary inside a box header; distinct by hash of the case.",
+     quick=dict(shards=2, timeout=300), thorough=dict(shards=16, timeout=1500),
+     assumptions=COMMON + ["declared box sizes above 16 MiB are not generated in-process (allocation from a 4-byte field, see DESIGN)",
+                           "a box with size < 8 must make Parse terminate with an error or with everything delivered"])
